@@ -13,6 +13,10 @@ CHECKS = {
                 text="All edit histories of length 1 (every applicable move), 2 and (thorough) 3 over the stated move menu from empty / mol2-loaded / cloned start states are explored path by path by CrossHair and compared after every step with a reference model keyed by atom identity (rows, dtypes, per-atom coordinate and charge, bond endpoints, deleted bonds, parent, idx). The solver enumerates a finite menu here; it adds no generalisation beyond it.",
                 note="Selector-bound: exhaustive over the bounded menu, not over arbitrary histories (random length-40 histories of the quantifier are not reproduced). One recorded known finding (append_bond with a foreign atom) is excluded by predicate and re-witnessed on every run.",
                 design="3/C05"),
+    "C06": dict(engine="XH", technique="CrossHair symbolic execution of copy routes (constructors, evolve, pickle, deepcopy, concatenate, ensemble routes) with symbolic field values, route and mutation selectors; z3 decides each path",
+                text="For each of 15 copy routes, every mutation of a 14-entry menu applied to either side, and all values of the symbolic fields (charge incl. 0, multiplicity, label None/empty/non-empty, attribute value, partial-charge rows incl. all-zero): the copy equals the source in every observable field of its class, atoms/bonds report the copy as parent with correct indices, and a deep snapshot of the untouched side is unchanged. pickle/deepcopy/concatenate run on concrete field values (C code).",
+                note="Bounded: one 3-atom source (and its 2-conformer ensemble), one mutation after the copy; pickle and deepcopy are exercised with selectors only. Shallow copy.copy is outside the property.",
+                design="3/C06"),
     "C02": dict(engine="XH", technique="CrossHair symbolic execution (z3 per path) of UKVFile/Collection on pure-Python file/struct/dict models, symbolic bytes, buffer size, stale-prefix and operation selectors",
                 text="Every CrossHair condition is 'Confirmed over all paths' inside the bound (<=3 records, keys 1-2 B + 255/256 B, values <=2-3 B, bufsize in [-1,200], <=3 handles, <=3 sessions): one operation from every stale-handle state, failed operations leave file and views unchanged, headers preserved, listed keys readable in-session, 2-handle session histories. Bounded symbolic verification, not a proof for larger files.",
                 note="Trusts CrossHair+z3 and the PyStruct/MemStream/FakePath/AssocDict/RWLock models (differentially validated against struct, real files and dict on every run); counterexamples are replayed with real struct, files and fasteners before being reported.",
